@@ -1,5 +1,5 @@
 import FcpptModel.Spec.C04
-import FcpptProofs.C04.Var
+import FcpptProofs.C04.Api
 set_option linter.unusedSimpArgs false
 set_option linter.unusedVariables false
 /-!
@@ -246,6 +246,20 @@ theorem either_apply_assoc_pure (f : α → β → γ) (g : γ → δ → ψ) (a
     (Either.apply2 (fun x y => (pure (f x y) : K σ γ)) a b >>= fun r => Either.apply2 (fun w z => (pure (g w z) : K σ ψ)) r c)
       = Either.apply3 (fun x y z => pure (g (f x y) z)) a b c := by
   cases a <;> cases b <;> cases c <;> simp [Either.apply2_eq, Either.apply3_eq]
+
+theorem either_apply1_eq_map (f : α → K σ δ) (e : Either φ α) : Either.apply1 f e = Either.map e f := by
+  rw [Either.apply1_eq, Either.map_eq]
+
+/-- applicative homomorphism -/
+theorem either_apply_homomorphism (f : α → β → K σ δ) (x : α) (y : β) :
+    Either.apply2 f (.success x : Either φ α) (.success y) = .success <$> f x y := by
+  simp [Either.apply2_eq]
+
+/-- composition with effects, outer argument a success (otherwise the inner function has already run, as in C++) -/
+theorem either_apply_assoc (f : α → β → K σ γ) (g : γ → δ → K σ ψ) (a : Either φ α) (b : Either φ β) (z : δ) :
+    (Either.apply2 f a b >>= fun r => Either.apply2 g r (.success z))
+      = Either.apply3 (fun x y z => f x y >>= fun w => g w z) a b (.success z) := by
+  cases a <;> cases b <;> simp [Either.apply2_eq, Either.apply3_eq]
 
 /-- effect-free versions of the documented results -/
 theorem opt_filter_pure (o : Option α) (p : α → Bool) :
@@ -760,6 +774,468 @@ theorem getUnsafe_guard (o : Option α) (e : Either φ α) :
   · cases e <;> simp [NoFault.pure]
   · cases e <;> simp [NoFault.pure]
 
+/-! ## 7. the rest of the public API (outside the anchor list, used together with it) -/
+
+/-- `to_container`: the value as a one-element container, or the empty container -/
+theorem opt_toContainer_spec (o : Option α) : (Opt.toContainer o : K σ (List α)) = pure o.toList := Opt.toContainer_eq o
+
+/-- … which is `cat` of the one-element range -/
+theorem opt_toContainer_eq_cat (o : Option α) : (Opt.toContainer o : K σ (List α)) = Opt.cat [o] := by
+  rw [Opt.toContainer_eq, Opt.cat_eq]; cases o <;> rfl
+
+/-- `copy_value`: reads the referenced object exactly once if there is a reference, never otherwise -/
+theorem opt_copyValue_spec {ρ : Type} (get : ρ → K σ α) (o : Option ρ) :
+    Opt.copyValue get o = match o with
+      | some r => some <$> get r
+      | none => pure none := Opt.copyValue_eq get o
+
+/-- `deref`: `*element` is evaluated exactly once if there is an element, never otherwise … -/
+theorem opt_deref_spec {π ρ : Type} (star : π → K σ ρ) (o : Option π) :
+    Opt.deref star o = match o with
+      | some p => some <$> star p
+      | none => pure none := Opt.deref_eq star o
+
+/-- … so a null pointer *inside* a set optional is undefined behaviour of `deref` (the documented precondition of `*`) -/
+theorem opt_deref_null {ρ : Type} :
+    (Opt.deref Ptr.star (some (Ptr.null : Ptr ρ)) : K σ (Option ρ)) = K.fault .emptyDeref := by
+  rw [Opt.deref_eq]; rfl
+
+theorem opt_deref_valid {ρ : Type} (r : ρ) :
+    (Opt.deref Ptr.star (some (Ptr.to r)) : K σ (Option ρ)) = pure (some r) := by
+  rw [Opt.deref_eq]; rfl
+
+theorem opt_maybeVoidMulti1_spec (t : α → K σ Unit) (o1 : Option α) :
+    Opt.maybeVoidMulti1 t o1 = match o1 with
+      | some x => t x
+      | none => pure () := Opt.maybeVoidMulti1_eq t o1
+
+theorem opt_maybeVoidMulti2_spec (t : α → β → K σ Unit) (o1 : Option α) (o2 : Option β) :
+    Opt.maybeVoidMulti2 t o1 o2 = match o1, o2 with
+      | some x, some y => t x y
+      | _, _ => pure () := Opt.maybeVoidMulti2_eq t o1 o2
+
+theorem opt_maybeVoidMulti3_spec (t : α → β → γ → K σ Unit) (o1 : Option α) (o2 : Option β) (o3 : Option γ) :
+    Opt.maybeVoidMulti3 t o1 o2 o3 = match o1, o2, o3 with
+      | some x, some y, some z => t x y z
+      | _, _, _ => pure () := Opt.maybeVoidMulti3_eq t o1 o2 o3
+
+theorem opt_maybeVoidMultiN_spec (t : List α → K σ Unit) (os : List (Option α)) :
+    Opt.maybeVoidMultiN t os = match allSome os with
+      | some xs => t xs
+      | none => pure () := Opt.maybeVoidMultiN_eq t os
+
+/-- `maybe_void_multi` with one optional is `maybe_void` -/
+theorem opt_maybeVoidMulti1_eq_maybeVoid (t : α → K σ Unit) (o : Option α) :
+    Opt.maybeVoidMulti1 t o = Opt.maybeVoid o t := by
+  rw [Opt.maybeVoidMulti1_eq, Opt.maybeVoid_eq]
+  cases o <;> rfl
+
+/-- `assign`: whatever the optional held, it holds the argument afterwards and the returned reference designates it;
+the `get_unsafe` inside is always on a set optional -/
+theorem opt_assign_spec (o : Option α) (x : α) : (Opt.assign o x : K σ (Option α × α)) = pure (some x, x) :=
+  Opt.assign_eq o x
+
+/-- writing through `get_unsafe()`: defined exactly on a set optional -/
+theorem opt_setUnsafe_spec (o : Option α) (v : α) :
+    (Opt.setUnsafe o v : K σ (Option α)) = match o with
+      | some _ => pure (some v)
+      | none => K.fault .emptyDeref := by
+  cases o <;> simp [Opt.setUnsafe] <;> rfl
+
+theorem opt_fromPointer_spec {ρ : Type} (p : Ptr ρ) :
+    (Opt.fromPointer p : K σ (Option ρ)) = pure (match p with
+      | .to r => some r
+      | .null => none) := Opt.fromPointer_eq p
+
+theorem opt_toPointer_spec {ρ : Type} (o : Option ρ) :
+    (Opt.toPointer o : K σ (Ptr ρ)) = pure (match o with
+      | some r => .to r
+      | none => .null) := Opt.toPointer_eq o
+
+/-- `from_pointer` and `to_pointer` are inverse to each other; the null pointer is never dereferenced -/
+theorem opt_pointer_roundtrip {ρ : Type} (p : Ptr ρ) (o : Option ρ) :
+    (Opt.fromPointer p >>= fun r => Opt.toPointer r : K σ (Ptr ρ)) = pure p ∧
+    (Opt.toPointer o >>= fun q => Opt.fromPointer q : K σ (Option ρ)) = pure o := by
+  constructor
+  · cases p <;> simp [Opt.fromPointer_eq, Opt.toPointer_eq]
+  · cases o <;> simp [Opt.fromPointer_eq, Opt.toPointer_eq]
+
+/-- `to_exception`: the value (the exception is not even constructed), or the constructed exception is thrown -/
+theorem opt_toException_spec (o : Option α) (mk : Unit → K σ ExcKind) :
+    Opt.toException o mk = match o with
+      | some x => pure x
+      | none => mk () >>= fun e => K.fault (.exception e) := Opt.toException_eq o mk
+
+theorem opt_toException_throws (mk : Unit → K σ ExcKind) (s s' : σ) (k : ExcKind) (h : mk () s = (.ok k, s')) :
+    (Opt.toException (none : Option α) mk) s = (.error (.exception k), s') := by
+  rw [Opt.toException_eq]
+  show (mk () >>= fun e => K.fault (.exception e)) s = _
+  rw [K.bind_run, h]
+  rfl
+
+/-- `operator<<`: `N` for nothing, `J`, a blank and the value otherwise -/
+theorem opt_output_spec (put : Char → K σ Unit) (putv : α → K σ Unit) (o : Option α) :
+    Opt.output put putv o = match o with
+      | none => put 'N'
+      | some v => put 'J' >>= fun _ => put ' ' >>= fun _ => putv v := Opt.output_eq put putv o
+
+/-- … on a stream that appends -/
+theorem opt_output_stream (sh : α → String) (o : Option α) (s : String) :
+    Opt.output streamPut (streamPutVal sh) o s
+      = (.ok (), match o with
+          | none => s.push 'N'
+          | some v => (s.push 'J').push ' ' ++ sh v) := by
+  rw [Opt.output_eq]; cases o <;> rfl
+
+theorem opt_nothing_spec : Opt.hasValue (Opt.nothing : Option α) = false ∧ Opt.hasValue (Opt.make x) = true := ⟨rfl, rfl⟩
+
+/-- none of these has a `get_unsafe` on the wrong alternative left (faults come from the continuations only) -/
+theorem opt_api_noFault {ρ : Type} (o : Option α) (o2 : Option β) (o3 : Option γ) (x : α) (p : Ptr ρ) (r : Option ρ)
+    (get : α → K σ β) (u : α → K σ Unit) (u2 : α → β → K σ Unit) (u3 : α → β → γ → K σ Unit)
+    (put : Char → K σ Unit) (hget : ∀ a, NoFault (get a)) (hu : ∀ a, NoFault (u a)) (hu2 : ∀ a b, NoFault (u2 a b))
+    (hu3 : ∀ a b c, NoFault (u3 a b c)) (hput : ∀ c, NoFault (put c)) :
+    NoFault (Opt.toContainer o : K σ _) ∧ NoFault (Opt.copyValue get o) ∧ NoFault (Opt.deref get o) ∧
+    NoFault (Opt.maybeVoidMulti1 u o) ∧ NoFault (Opt.maybeVoidMulti2 u2 o o2) ∧ NoFault (Opt.maybeVoidMulti3 u3 o o2 o3) ∧
+    NoFault (Opt.assign o x : K σ _) ∧ NoFault (Opt.fromPointer p : K σ _) ∧ NoFault (Opt.toPointer r : K σ _) ∧
+    NoFault (Opt.output put u o) := by
+  refine ⟨?_, ?_, ?_, ?_, ?_, ?_, ?_, ?_, ?_, ?_⟩
+  · rw [Opt.toContainer_eq]; exact NoFault.pure _
+  · rw [Opt.copyValue_eq]; cases o <;> simp [NoFault.pure, NoFault.map, hget]
+  · rw [Opt.deref_eq]; cases o <;> simp [NoFault.pure, NoFault.map, hget]
+  · rw [Opt.maybeVoidMulti1_eq]; cases o <;> simp [NoFault.pure, hu]
+  · rw [Opt.maybeVoidMulti2_eq]; cases o <;> cases o2 <;> simp [NoFault.pure, hu2]
+  · rw [Opt.maybeVoidMulti3_eq]; cases o <;> cases o2 <;> cases o3 <;> simp [NoFault.pure, hu3]
+  · rw [Opt.assign_eq]; exact NoFault.pure _
+  · rw [Opt.fromPointer_eq]; exact NoFault.pure _
+  · rw [Opt.toPointer_eq]; exact NoFault.pure _
+  · rw [Opt.output_eq]
+    cases o with
+    | none => exact hput _
+    | some v => exact (hput _).bind fun _ => (hput _).bind fun _ => hu v
+
+/-! either -/
+
+/-- `operator==`: same alternative and equal payloads; a success never equals a failure, whatever they carry -/
+theorem either_eq_spec (eqf : φ → φ → Bool) (eqs : α → α → Bool) (a b : Either φ α) :
+    (Either.eq eqf eqs a b : K σ Bool) = pure (match a, b with
+      | .success x, .success y => eqs x y
+      | .failure x, .failure y => eqf x y
+      | _, _ => false) := Either.eq_eq eqf eqs a b
+
+theorem either_eq_iff [DecidableEq φ] [DecidableEq α] (a b : Either φ α) :
+    (Either.eq (fun x y => decide (x = y)) (fun x y => decide (x = y)) a b : K σ Bool) = pure (decide (a = b)) := by
+  rw [Either.eq_eq]
+  cases a <;> cases b <;> simp
+
+theorem either_ne_spec (eqf : φ → φ → Bool) (eqs : α → α → Bool) (a b : Either φ α) :
+    (Either.ne eqf eqs a b : K σ Bool) = (fun r => !r) <$> (Either.eq eqf eqs a b : K σ Bool) := Either.ne_eq eqf eqs a b
+
+/-- `construct` calls exactly one of the two functions, once -/
+theorem either_construct_spec (v : Bool) (s : Unit → K σ α) (f : Unit → K σ φ) :
+    Either.construct v s f = if v then .success <$> s () else .failure <$> f () := Either.construct_eq v s f
+
+theorem either_errorFromOptional_spec (o : Option φ) :
+    (Either.errorFromOptional o : K σ (Either φ Unit)) = pure (match o with
+      | some x => .failure x
+      | none => .success ()) := Either.errorFromOptional_eq o
+
+theorem either_make_spec (f : φ) (s : α) :
+    Either.hasFailure (Either.makeFailure f : Either φ α) = true ∧ Either.hasSuccess (Either.makeSuccess s : Either φ α) = true ∧
+    (Either.getFailureUnsafe (Either.makeFailure f : Either φ α) : K σ φ) = pure f ∧
+    (Either.getSuccessUnsafe (Either.makeSuccess s : Either φ α) : K σ α) = pure s := ⟨rfl, rfl, rfl, rfl⟩
+
+theorem either_output_spec (putf : φ → K σ Unit) (puts : α → K σ Unit) (e : Either φ α) :
+    Either.output putf puts e = match e with
+      | .success s => puts s
+      | .failure f => putf f := Either.match_eq e putf puts
+
+/-- `sequence_error`: the function is called on the elements in order, up to and including the first one for which
+it returns a failure — that failure is the result; nothing is called after it -/
+theorem either_sequenceError_nil (f : α → K σ (Either φ Unit)) : Either.sequenceError [] f = pure (.success ()) := rfl
+
+theorem either_sequenceError_cons (x : α) (r : List α) (f : α → K σ (Either φ Unit)) :
+    Either.sequenceError (x :: r) f = (f x >>= fun e =>
+      match e with
+      | .failure err => pure (.failure err)
+      | .success _ => Either.sequenceError r f) := Either.sequenceError_cons x r f
+
+theorem either_sequenceError_pure (l : List α) (f : α → Either φ Unit) :
+    (Either.sequenceError l (fun x => pure (f x)) : K σ (Either φ Unit)) = pure (firstError (l.map f)) :=
+  Either.sequenceError_pure l f
+
+theorem firstError_failure_iff (l : List (Either φ Unit)) (f : φ) :
+    firstError l = .failure f ↔
+      ∃ (n : Nat) (post : List (Either φ Unit)), l = List.replicate n (.success ()) ++ .failure f :: post :=
+  firstError_eq_failure_iff l f
+
+theorem firstError_success_iff (l : List (Either φ Unit)) : firstError l = .success () ↔ ∀ e ∈ l, e = .success () :=
+  firstError_eq_success_iff l
+
+/-- `sequence_error` is `sequence` on the results with the container forgotten -/
+theorem either_sequenceError_eq_sequence (l : List α) (f : α → Either φ Unit) :
+    (Either.sequenceError l (fun x => pure (f x)) : K σ (Either φ Unit))
+      = (fun r => match r with
+          | .failure e => .failure e
+          | .success _ => .success ()) <$> (Either.sequence (l.map f) : K σ (Either φ (List Unit))) := by
+  rw [Either.sequenceError_pure, Either.sequence_eq, firstError_eq_allSuccess, map_pure]
+  cases allSuccess (List.map f l) <;> rfl
+
+/-- with effects: the calls made are exactly those on the prefix up to the first failure -/
+theorem either_sequenceError_call_log (pre : List α) (x : α) (post : List α) (f : α → Either φ Unit) (e : φ)
+    (hpre : ∀ y ∈ pre, f y = .success ()) (hx : f x = .failure e) (log : List α) :
+    Either.sequenceError (pre ++ x :: post) (fun y => logged y (f y)) log = (.ok (.failure e), log ++ pre ++ [x]) := by
+  induction pre generalizing log with
+  | nil =>
+    rw [List.nil_append, Either.sequenceError_cons, K.bind_run]
+    simp [logged, hx]
+  | cons y ys ih =>
+    rw [List.cons_append, Either.sequenceError_cons, K.bind_run]
+    have hy : f y = .success () := hpre y (by simp)
+    simp only [logged, hy]
+    rw [ih (fun z hz => hpre z (by simp [hz]))]
+    simp
+
+theorem either_toException_spec (e : Either φ α) (mk : φ → K σ ExcKind) :
+    Either.toException e mk = match e with
+      | .success s => pure s
+      | .failure f => mk f >>= fun k => K.fault (.exception k) := Either.toException_eq e mk
+
+theorem either_setUnsafe_spec (e : Either φ α) (v : α) (w : φ) :
+    (Either.setSuccessUnsafe e v : K σ (Either φ α)) = (match e with
+      | .success _ => pure (.success v)
+      | .failure _ => K.fault .emptyDeref) ∧
+    (Either.setFailureUnsafe e w : K σ (Either φ α)) = (match e with
+      | .failure _ => pure (.failure w)
+      | .success _ => K.fault .emptyDeref) := by
+  cases e <;> exact ⟨rfl, rfl⟩
+
+theorem either_api_noFault (a b : Either φ α) (o : Option φ) (v : Bool) (l : List α) (eqf : φ → φ → Bool) (eqs : α → α → Bool)
+    (s : Unit → K σ α) (f : Unit → K σ φ) (g : α → K σ (Either φ Unit)) (hs : NoFault (s ())) (hf : NoFault (f ()))
+    (hg : ∀ x, NoFault (g x)) :
+    NoFault (Either.eq eqf eqs a b : K σ _) ∧ NoFault (Either.ne eqf eqs a b : K σ _) ∧ NoFault (Either.construct v s f) ∧
+    NoFault (Either.errorFromOptional o : K σ _) ∧ NoFault (Either.sequenceError l g) := by
+  refine ⟨?_, ?_, ?_, ?_, ?_⟩
+  · rw [Either.eq_eq]; exact NoFault.pure _
+  · rw [Either.ne_eq, Either.eq_eq]; exact NoFault.map _ (NoFault.pure _)
+  · rw [Either.construct_eq]; cases v <;> simp [NoFault.map, hs, hf]
+  · rw [Either.errorFromOptional_eq]; exact NoFault.pure _
+  · induction l with
+    | nil => exact NoFault.pure _
+    | cons x r ih =>
+      rw [Either.sequenceError_cons]
+      refine (hg x).bind fun e => ?_
+      cases e with
+      | failure err => exact NoFault.pure _
+      | success u => exact ih
+
+/-! variant -/
+section variant2
+variable {n : Nat} {τ : Fin n → Type}
+
+theorem variant_apply3_spec {m k : Nat} {υ : Fin m → Type} {ω : Fin k → Type} (i : Fin n) (x : τ i) (j : Fin m) (y : υ j)
+    (l : Fin k) (z : ω l) (f : (i : Fin n) → τ i → (j : Fin m) → υ j → (l : Fin k) → ω l → K σ β) :
+    Var.apply3 f (⟨i, x⟩ : Var n τ) (⟨j, y⟩ : Var m υ) (⟨l, z⟩ : Var k ω) = f i x j y l z := rfl
+
+theorem variant_output_spec (i : Fin n) (x : τ i) (putv : (i : Fin n) → τ i → K σ Unit) :
+    Var.output putv (⟨i, x⟩ : Var n τ) = putv i x := rfl
+
+/-- `to_optional_ref` designates the held value exactly when `to_optional` copies it -/
+theorem variant_toOptionalRef_spec (j : Fin n) (v : Var n τ) :
+    (Var.toOptionalRef j v : K σ (Option (τ j))) = pure (if h : v.idx = j then some (h ▸ v.val) else none) :=
+  Var.toOptional_eq j v
+
+/-- writing through the reference changes the held value and nothing else; reading it back gives what was written -/
+theorem variant_setUnsafe_spec (i : Fin n) (x y : τ i) :
+    (Var.setUnsafe i (⟨i, x⟩ : Var n τ) y : K σ (Var n τ)) = pure ⟨i, y⟩ ∧
+    (Var.setUnsafe i (⟨i, x⟩ : Var n τ) y >>= fun v' => Var.toOptionalRef i v' : K σ (Option (τ i))) = pure (some y) := by
+  constructor
+  · exact Var.setUnsafe_held i x y
+  · rw [Var.setUnsafe_held]; simp [Var.toOptionalRef_eq_toOptional, Var.toOptional_eq]
+
+/-- `get_unsafe<T_j>` on a variant holding another type is the fault the combinators never reach -/
+theorem variant_setUnsafe_wrong (j : Fin n) (v : Var n τ) (y : τ j) (h : v.idx ≠ j) :
+    (Var.setUnsafe j v y : K σ (Var n τ)) = K.fault .emptyDeref := Var.setUnsafe_wrong j v y h
+
+end variant2
+
+/-- `dynamic_cast_`: the casts are tried in the order of the type list; the result is the first one that succeeds
+together with the position of its type; casts after it are not evaluated -/
+theorem dynamicCast_spec {ρ : Type} (casts : List (Unit → K σ (Option ρ))) : dynamicCast casts = tryCasts 0 casts :=
+  dynamicCast_eq casts
+
+theorem dynamicCast_pure {ρ : Type} (l : List (Option ρ)) :
+    (dynamicCast (l.map fun o _ => pure o) : K σ (Option (Nat × ρ))) = pure (firstSome 0 l) := by
+  rw [dynamicCast_eq, tryCasts_pure]
+
+theorem dynamicCast_some_iff {ρ : Type} (l : List (Option ρ)) (i : Nat) (r : ρ) :
+    firstSome 0 l = some (i, r) ↔ ∃ post, l = List.replicate i none ++ some r :: post := by
+  rw [firstSome_eq_some_iff]
+  constructor
+  · rintro ⟨n, post, h, hi⟩; exact ⟨post, by simpa [hi] using h⟩
+  · rintro ⟨post, h⟩; exact ⟨i, post, h, by omega⟩
+
+theorem dynamicCast_none_iff {ρ : Type} (l : List (Option ρ)) : firstSome 0 l = none ↔ ∀ o ∈ l, o = none :=
+  firstSome_eq_none_iff l 0
+
+/-! special members: assignment replaces the whole object (whatever alternative either side held), an lvalue source
+keeps its value, assigning or swapping an object with itself changes nothing, `swap` is an involution -/
+theorem special_members_spec {τ : Type} (a b : τ) :
+    assignObj a b = (b, b) ∧ (assignObj a a).1 = a ∧ swapObj a b = (b, a) ∧ (swapObj a a).1 = a ∧
+    swapObj (swapObj a b).1 (swapObj a b).2 = (a, b) := ⟨rfl, rfl, rfl, rfl, rfl⟩
+
+/-- assigning changes the held alternative: after `v = w` every observer answers as for `w` -/
+theorem special_members_observers {n : Nat} {τ : Fin n → Type} (v w : Var n τ) (o p : Option α) (e f : Either φ α) :
+    Var.typeIndex (assignObj v w).1 = Var.typeIndex w ∧ Opt.hasValue (assignObj o p).1 = Opt.hasValue p ∧
+    Either.hasSuccess (assignObj e f).1 = Either.hasSuccess f := ⟨rfl, rfl, rfl⟩
+
+/-! the valueless state of a variant (`is_invalid()`) -/
+section valueless
+variable {n : Nat} {τ : Fin n → Type}
+
+/-- how it is reached: only by an assignment that changes the alternative (or fills a valueless target) and whose
+construction throws — or by assigning a valueless source; every other assignment gives a valid variant equal to the source -/
+theorem variant_invalid_reached_iff (dst : VarV n τ) (s : Var n τ) (ctorThrows : Bool) :
+    VarV.isInvalid (VarV.assign dst (some s) ctorThrows).1 = true ↔
+      ctorThrows = true ∧ (∀ d, dst = some d → d.idx ≠ s.idx) := by
+  cases dst with
+  | none => cases ctorThrows <;> simp [VarV.assign, VarV.isInvalid]
+  | some d =>
+    by_cases h : d.idx = s.idx
+    · simp [VarV.assign, VarV.isInvalid, h]
+    · cases ctorThrows <;> simp [VarV.assign, VarV.isInvalid, h]
+
+/-- the exception leaves the assignment exactly when the target became valueless -/
+theorem variant_assign_throws_iff (dst : VarV n τ) (s : Var n τ) (ctorThrows : Bool) :
+    (VarV.assign dst (some s) ctorThrows).2 = VarV.isInvalid (VarV.assign dst (some s) ctorThrows).1 := by
+  cases dst with
+  | none => cases ctorThrows <;> rfl
+  | some d =>
+    by_cases h : d.idx = s.idx
+    · simp [VarV.assign, VarV.isInvalid, h]
+    · cases ctorThrows <;> simp [VarV.assign, VarV.isInvalid, h]
+
+/-- an invalid variant is recovered by any assignment that does not throw (the documented way out) -/
+theorem variant_invalid_recovers (s : Var n τ) : VarV.assign (none : VarV n τ) (some s) false = (some s, false) := rfl
+
+theorem variant_assign_ok (dst : VarV n τ) (s : Var n τ) : VarV.assign dst (some s) false = (some s, false) := by
+  cases dst with
+  | none => rfl
+  | some d => by_cases h : d.idx = s.idx <;> simp [VarV.assign, h]
+
+/-- what the operations do with an invalid variant: the tests are all false, `to_optional` is nothing without touching
+`get_unsafe`, visiting (`apply`, `match`, `type_info`, `<<`, `compare` with it on the right) throws `std::bad_variant_access`
+and calls nothing, `compare` with it on the left is false without a call, it equals only another invalid variant and is
+smaller than every valid one -/
+theorem variant_invalid_spec (j : Fin n) (f : (i : Fin n) → τ i → K σ β) (w : Var n τ)
+    (cmp : (i : Fin n) → τ i → τ i → K σ Bool) (eqv ltv : (i : Fin n) → τ i → τ i → Bool) :
+    VarV.isInvalid (none : VarV n τ) = true ∧ VarV.typeIndex (none : VarV n τ) = none ∧
+    VarV.holdsType j (none : VarV n τ) = false ∧
+    (VarV.toOptional j (none : VarV n τ) : K σ (Option (τ j))) = pure none ∧
+    VarV.apply f none = K.fault (.exception (.other "std")) ∧
+    VarV.compare (some w) none cmp = K.fault (.exception (.other "std")) ∧
+    VarV.compare none (some w) cmp = pure false ∧
+    VarV.eq eqv (none : VarV n τ) none = true ∧ VarV.eq eqv none (some w) = false ∧ VarV.eq eqv (some w) none = false ∧
+    VarV.lt ltv none (some w) = true ∧ VarV.lt ltv (some w) none = false ∧ VarV.lt ltv (none : VarV n τ) none = false := by
+  refine ⟨rfl, rfl, rfl, rfl, rfl, rfl, ?_, rfl, rfl, rfl, rfl, rfl, rfl⟩
+  simp [VarV.compare, VarV.apply, Var.apply, VarV.toOptional, VarV.holdsType, Opt.maybe_eq]
+
+/-- on a valid variant the `VarV` operations are the `Var` ones -/
+theorem variant_valid_spec (j : Fin n) (f : (i : Fin n) → τ i → K σ β) (v w : Var n τ)
+    (cmp : (i : Fin n) → τ i → τ i → K σ Bool) (eqv ltv : (i : Fin n) → τ i → τ i → Bool) :
+    VarV.isInvalid (some v) = false ∧ VarV.typeIndex (some v) = some (Var.typeIndex v) ∧
+    VarV.holdsType j (some v) = Var.holdsType j v ∧
+    (VarV.toOptional j (some v) : K σ (Option (τ j))) = Var.toOptional j v ∧
+    VarV.apply f (some v) = Var.apply f v ∧ VarV.compare (some v) (some w) cmp = Var.compare v w cmp ∧
+    VarV.eq eqv (some v) (some w) = Var.eq eqv v w ∧ VarV.lt ltv (some v) (some w) = Var.lt ltv v w := by
+  refine ⟨rfl, rfl, rfl, ?_, rfl, ?_, rfl, rfl⟩
+  · exact VarV.toOptional_some j v
+  · simp only [VarV.compare, VarV.apply, Var.compare, VarV.toOptional_some]
+
+end valueless
+
+/-! monad: `return_`, `chain`, `do_` -/
+
+theorem monad_return_opt (x : α) (f : α → K σ (Option β)) (o : Option α) :
+    monadBindOpt (returnOpt x) f = f x ∧ monadBindOpt o (fun y => (pure (returnOpt y) : K σ (Option α))) = pure o := by
+  constructor
+  · simp [monadBindOpt, returnOpt, Opt.bind_eq, Opt.make]
+  · cases o <;> simp [monadBindOpt, returnOpt, Opt.bind_eq, Opt.make]
+
+theorem monad_return_either (x : α) (f : α → K σ (Either φ β)) (e : Either φ α) :
+    monadBindEither (returnEither x) f = f x ∧
+    monadBindEither e (fun y => (pure (returnEither y) : K σ (Either φ α))) = pure e := by
+  constructor
+  · simp [monadBindEither, returnEither, Either.makeSuccess, Either.bind_eq]
+  · cases e <;> simp [monadBindEither, returnEither, Either.makeSuccess, Either.bind_eq]
+
+/-- `chain(v, l_1, l_2)` is the left-nested bind … -/
+theorem monad_chainOpt2_spec (v : Option α) (l1 : α → K σ (Option β)) (l2 : β → K σ (Option γ)) :
+    chainOpt2 v l1 l2 = (Opt.bind v l1 >>= fun r => Opt.bind r l2) := by
+  simp [chainOpt2, monadBindOpt]
+
+/-- … which by associativity is the right-nested one: `l_2` runs only after `l_1` returned a value -/
+theorem monad_chainOpt2_assoc (v : Option α) (l1 : α → K σ (Option β)) (l2 : β → K σ (Option γ)) :
+    chainOpt2 v l1 l2 = Opt.bind v (fun x => l1 x >>= fun r => Opt.bind r l2) := by
+  rw [monad_chainOpt2_spec, opt_bind_assoc]
+
+theorem monad_chainOptN_nil (v : Option α) : (chainOptN v [] : K σ (Option α)) = pure v := rfl
+
+theorem monad_chainOptN_cons (v : Option α) (l : α → K σ (Option α)) (ls : List (α → K σ (Option α))) :
+    chainOptN v (l :: ls) = (Opt.bind v l >>= fun r => chainOptN r ls) := rfl
+
+/-- once nothing, always nothing: no later lambda is called -/
+theorem monad_chainOptN_none (ls : List (α → K σ (Option α))) : (chainOptN none ls : K σ (Option α)) = pure none := by
+  induction ls with
+  | nil => rfl
+  | cons l ls ih => simp [chainOptN, monadBindOpt, Opt.bind_eq, ih]
+
+theorem monad_chainEither2_spec (v : Either φ α) (l1 : α → K σ (Either φ β)) (l2 : β → K σ (Either φ γ)) :
+    chainEither2 v l1 l2 = (Either.bind v l1 >>= fun r => Either.bind r l2) := by
+  simp [chainEither2, monadBindEither]
+
+theorem monad_chainEitherN_failure (x : φ) (ls : List (α → K σ (Either φ α))) :
+    (chainEitherN (.failure x) ls : K σ (Either φ α)) = pure (.failure x) := by
+  induction ls with
+  | nil => rfl
+  | cons l ls ih => simp [chainEitherN, monadBindEither, Either.bind_eq, ih]
+
+/-- `do_(v, l_1, l_2)`: `l_1` gets the value of `v`, `l_2` the values of `v` and of `l_1`'s result; each is called at
+most once and only when everything before it held a value -/
+theorem monad_doOpt3_spec (v : Option α) (l1 : α → K σ (Option β)) (l2 : α → β → K σ (Option γ)) :
+    doOpt3 v l1 l2 = match v with
+      | none => pure none
+      | some a => l1 a >>= fun m => match m with
+        | none => pure none
+        | some b => l2 a b := by
+  cases v with
+  | none => simp [doOpt3, monadBindOpt, Opt.bind_eq]
+  | some a =>
+    simp only [doOpt3, monadBindOpt, Opt.bind_eq]
+    congr 1
+    funext m
+    cases m <;> rfl
+
+theorem monad_doEither3_spec (v : Either φ α) (l1 : α → K σ (Either φ β)) (l2 : α → β → K σ (Either φ γ)) :
+    doEither3 v l1 l2 = match v with
+      | .failure x => pure (.failure x)
+      | .success a => l1 a >>= fun m => match m with
+        | .failure x => pure (.failure x)
+        | .success b => l2 a b := by
+  cases v with
+  | failure x => simp [doEither3, monadBindEither, Either.bind_eq]
+  | success a =>
+    simp only [doEither3, monadBindEither, Either.bind_eq]
+    congr 1
+    funext m
+    cases m <;> rfl
+
+/-- `do_` whose last lambda ignores the earlier values is `chain` -/
+theorem monad_do_eq_chain (v : Option α) (l1 : α → K σ (Option β)) (l2 : β → K σ (Option γ)) :
+    doOpt3 v l1 (fun _ b => l2 b) = chainOpt2 v l1 l2 := by
+  rw [monad_chainOpt2_assoc]; rfl
+
+theorem monad_doOpt2_spec (v : Option α) (l1 : α → K σ (Option β)) : doOpt2 v l1 = Opt.bind v l1 := rfl
+
 /-! ## Non-vacuity -/
 
 -- a bind that calls its continuation, and one that does not
@@ -779,5 +1255,22 @@ example : Either.loop 10 queueNext queueBody
 -- variant `<`: index first, then value
 example : Var.lt (n := 2) (τ := fun _ => Nat) (fun _ a b => decide (a < b)) ⟨0, 5⟩ ⟨1, 0⟩ = true := by decide
 example : Var.lt (n := 2) (τ := fun _ => Nat) (fun _ a b => decide (a < b)) ⟨1, 0⟩ ⟨1, 0⟩ = false := by decide
+
+-- sequence_error stops at the first failure: the third element is never looked at
+example : Either.sequenceError [1, 2, 3] (fun x => logged x (if x = 2 then .failure "two" else .success ())) []
+    = (.ok (.failure "two"), [1, 2]) := rfl
+-- dynamic_cast_: the first type in the list that matches wins, later casts are not tried
+example : dynamicCast [fun _ => logged 0 none, fun _ => logged 1 (some "d1"), fun _ => logged 2 (some "d2")] []
+    = (.ok (some (1, "d1")), [0, 1]) := rfl
+-- either ==: a success is different from a failure with the same payload
+example : (Either.eq (· == ·) (· == ·) (.success 0 : Either Nat Nat) (.failure 0) : K Unit Bool) () = (.ok false, ()) := rfl
+-- a throwing construction during an assignment that changes the alternative leaves the target valueless
+example : VarV.assign (n := 2) (τ := fun _ => Nat) (some ⟨0, 5⟩) (some ⟨1, 0⟩) true = (none, true) := by
+  simp [VarV.assign]
+example : VarV.assign (n := 2) (τ := fun _ => Nat) (some ⟨1, 5⟩) (some ⟨1, 0⟩) true = (some ⟨1, 0⟩, false) := by
+  simp [VarV.assign]
+-- do_: the second lambda sees both values
+example : doOpt3 (some 1) (fun a => logged a (some (a + 1))) (fun a b => logged (10 * a + b) (some (a + b))) []
+    = (.ok (some 3), [1, 12]) := rfl
 
 end Fcppt.C04
